@@ -359,7 +359,7 @@ func (c *Coordinator) alleviateShardHeadSeries(s *shardInfo, changeAbleShards []
 			continue
 		}
 
-		if tar.Series > c.option.MaxHeadSeries {
+		if c.isTooBig(tar) {
 			c.log.Warnf("too big series [%d] series is [%d], skip alleviate", hash, tar.Series)
 			return 0
 		}
@@ -405,7 +405,7 @@ func (c *Coordinator) alleviateShardProcessSeries(s *shardInfo, changeAbleShards
 			continue
 		}
 
-		if tar.TotalSeries > c.option.MaxProcessSeries {
+		if c.isTooBig(tar) {
 			c.log.Warnf("too big series [%d] series is [%d], skip alleviate", hash, tar.Series)
 			return 0
 		}
